@@ -227,7 +227,9 @@ def run_real(T, prog, outcomes, shutdown_at=None, make_buffer=None, eager=False)
             if not t.done():
                 out.append(('wait-pending', i))
                 t.cancel()
-        buf._waiting.cancel()
+        for t in asyncio.all_tasks(loop):           # the buffer's background task, under whatever name it is kept
+            if t is not asyncio.current_task():
+                t.cancel()
     try:
         loop.run_until_complete(main())
         if shutdown_at is not None:
